@@ -220,3 +220,139 @@ Example C20_pasted_line_reaches_engine :
   fst (run init_term false ks) = [Line [str "select 1;"] true] /\
   handed_to_engine (fst (run init_term false ks)) = [str "select 1;"].
 Proof. vm_compute. split; reflexivity. Qed.
+
+(* ---- the oracle of the correspondence run and the model (Proofs/ConsoleOracle.v) ----
+   `spec_accepts` (Spec/ConsoleSpec.v) judges what Go's successive ReadLine calls returned on a
+   scripted case: exactly the normalised statements, in order, then end of input (cases without a
+   script are accepted); `hyps_hold` are the hypotheses of C20_submitted as booleans plus "the byte
+   chunks are the encoding of the delivered keys"; `model_agrees` compares the observation with the
+   byte-level model and, on scripted cases, with the key-level model. *)
+From Mkdb Require Import Model.CaseLib Proofs.ConsoleOracle.
+
+(* the oracle accepts the model's own answer on every in-scope script and delivery *)
+Theorem C20_oracle_accepts_model : forall chunks us pcs consts,
+  forallb wf_unit us = true ->
+  List.concat (List.map snd pcs) = script_keys us ->
+  spec_accepts (mkCase chunks (Some (us, pcs)) consts (session_keys (final_enter pcs))) = true.
+Proof. exact oracle_accepts_model. Qed.
+Print Assumptions C20_oracle_accepts_model.
+
+(* hence: the model agrees with Go on a case that satisfies the hypotheses => the oracle accepts
+   what Go did. (Only the first two conjuncts of hyps_hold are used here: model_agrees already
+   contains the comparison with the key-level model.) *)
+Theorem C20_agreement_implies_acceptance : forall c,
+  hyps_hold c = true -> model_agrees c = true -> spec_accepts c = true.
+Proof. exact agreement_implies_acceptance. Qed.
+Print Assumptions C20_agreement_implies_acceptance.
+
+(* hyps_hold is needed. (1) a literal whose only closing quote is escaped is outside the hypotheses:
+   nothing is submitted (the console keeps waiting), the model agrees, the oracle - which expects
+   the statement - rejects. (2) a delivery that is not a cutting of the script (here it lacks the
+   second statement). In both cases the model's own answer is the observation. *)
+Example C20_hyps_needed :
+  let us1 := [ (str "select 'abc\';", br) ] in
+  let pcs1 := [ (false, str "select 'abc\';" ++ br) ] in
+  let c1 := mkCase [encode_keys (final_enter pcs1)] (Some (us1, pcs1)) key_consts
+                   (session_keys (final_enter pcs1)) in
+  let us2 := [ (str "select 1;", br); (str "select 2;", br) ] in
+  let pcs2 := [ (false, str "select 1;" ++ br) ] in
+  let c2 := mkCase [encode_keys (final_enter pcs2)] (Some (us2, pcs2)) key_consts
+                   (session_keys (final_enter pcs2)) in
+  hyps_hold c1 = false /\ model_agrees c1 = true /\ spec_accepts c1 = false /\
+  hyps_hold c2 = false /\ model_agrees c2 = true /\ spec_accepts c2 = false.
+Proof. vm_compute. repeat split; reflexivity. Qed.
+
+(* ---- bytes -> keys, for ALL encodable runes and every cutting into Read chunks ----
+   enc_rune r: r is Enter (13) or >= 32, not a surrogate, <= 0x10FFFF (U+FFFD included).
+   `next_key` is what readLine takes from bytesToKey: the key, or "no key" when bytesToKey answers
+   utf8.RuneError - unless that answer consumed exactly three bytes, which is a typed U+FFFD (fix
+   commit f013140). The UTF-8 encoding of an encodable rune (1, 2, 3 or 4 bytes) followed by anything
+   yields that rune, in either paste mode; a proper prefix of the encoding is "no key yet". *)
+Theorem C20_bytes_to_key_utf8 : forall r tail p,
+  enc_rune r = true -> next_key (utf8_encode r ++ tail) p = BKey r tail.
+Proof. exact rune_key. Qed.
+Print Assumptions C20_bytes_to_key_utf8.
+
+(* bytesToKey itself: the rune, except for U+FFFD where it answers RuneError with 3 bytes consumed *)
+Theorem C20_bytes_to_key_utf8_raw : forall r tail p,
+  enc_rune r = true ->
+  bytes_to_key (utf8_encode r ++ tail) p = if r =? runeError then BNone tail else BKey r tail.
+Proof. exact rune_btk. Qed.
+Print Assumptions C20_bytes_to_key_utf8_raw.
+
+Theorem C20_partial_rune_waits : forall r a b p,
+  enc_rune r = true -> utf8_encode r = a ++ b -> b <> [] ->
+  bytes_to_key a p = BNone a /\ next_key a p = BNone a.
+Proof. intros r a b p H E B. split; [exact (rune_partial_btk r a b p H E B) | exact (rune_partial r a b p H E B)]. Qed.
+Print Assumptions C20_partial_rune_waits.
+
+(* the read loop (256-byte buffer, remainder, chunked Reads of any sizes incl. empty ones and cuts
+   inside a rune or a paste marker): on the encoding of an encodable key list (enc_ok: encodable
+   runes, ESC[200~ outside and ESC[201~ inside a paste) the byte-level session IS the key-level
+   session - this supersedes "tied to Go by the correspondence run only" above for the model side *)
+Theorem C20_bytes_are_keys : forall chunks ks,
+  enc_ok false ks = true -> List.concat chunks = encode_keys ks ->
+  session_bytes chunks = session_keys ks.
+Proof. exact bytes_session_is_key_session. Qed.
+Print Assumptions C20_bytes_are_keys.
+
+(* so the agreement of the BYTE-level model alone with Go implies the oracle's acceptance *)
+Theorem C20_byte_agreement_implies_acceptance : forall c,
+  hyps_hold c = true ->
+  list_eqb out_eqb (session_bytes (c_chunks c)) (c_obs c) = true -> spec_accepts c = true.
+Proof. exact byte_agreement_implies_acceptance. Qed.
+Print Assumptions C20_byte_agreement_implies_acceptance.
+
+(* U+FFFD. `valid_rune` admits it, so `select '<U+FFFD>';` is inside the hypotheses of C20_submitted.
+   OLD BEHAVIOUR (before fix commit f013140; this theorem then carried a hypothesis `no_fffd` and the
+   Example here was C20_fffd_is_dropped): bytesToKey answers utf8.RuneError both for "no key yet" and
+   for a decoded U+FFFD, and readLine ended its inner loop on every RuneError - a typed or pasted
+   U+FFFD was silently dropped and the bytes after it waited for the next Read: on one chunk followed
+   by end of input the byte-level session was [Eof] (nothing submitted), with one more Read it was
+   [Line ["select '';"]; Line []; Eof] - the statement WITHOUT the rune; the key-level model submitted
+   it with the rune, so the two conjuncts of model_agrees could not both hold.
+   NOW readLine compares the number of bytes bytesToKey consumed (3 = a real U+FFFD): the statement is
+   submitted intact on the byte level, typed or pasted, also when a Read boundary cuts the three bytes;
+   a single invalid byte (1 consumed) still ends the inner loop and is dropped, as before. *)
+Example C20_fffd_is_submitted :
+  let stmt := str "select '" ++ [65533] ++ str "';" in
+  let us := [ (stmt, br); (stmt, br) ] in
+  let pcs := [ (false, stmt ++ br); (true, stmt ++ br) ] in
+  let b := encode_keys (final_enter pcs) in
+  let chunks := [firstn 9 b; firstn 1 (skipn 9 b); skipn 10 b] in     (* EF | BF | BD ... *)
+  let c := mkCase chunks (Some (us, pcs)) key_consts (session_bytes chunks) in
+  hyps_hold c = true /\ enc_ok false (final_enter pcs) = true /\
+  encode_key 65533 = [239; 191; 189] /\ firstn 2 (skipn 8 b) = [239; 191] /\
+  session_bytes [b] = [Line [stmt] false; Line [stmt] true; Line [] false; Eof] /\
+  session_bytes chunks = session_keys (final_enter pcs) /\
+  session_bytes chunks = session_bytes [b] /\
+  model_agrees c = true /\ spec_accepts c = true /\
+  (* an invalid byte is still dropped and still ends the inner loop: the rest waits for the next Read *)
+  session_bytes [[255] ++ str "a;" ++ br] = [Eof] /\
+  session_bytes [[255] ++ str "a;" ++ br; []] = [Line [str "a;"] false; Eof].
+Proof. vm_compute. repeat split; reflexivity. Qed.
+
+(* non-vacuity: 2-, 3- and 4-byte runes (e-acute, euro sign, U+1F600), a backslash escape, one typed
+   and one pasted chunk; the 72 bytes cut into Read chunks inside the 2-, 3- and 4-byte runes and inside both paste
+   markers, with an empty Read in between.
+   All hypotheses hold, the byte-level and the key-level model agree, the oracle accepts. *)
+Definition utf_units : list (list N * list N) :=
+  [ (str "insert into t " ++ br ++ str "values ('" ++ [233; 8364] ++ str "\';" ++ [128512] ++ str "');", br);
+    (str "select " ++ [233] ++ str " from t;", str " " ++ br) ].
+Definition utf_pcs : list (bool * list N) :=
+  [ (false, str "insert into t " ++ br ++ str "values ('" ++ [233; 8364] ++ str "\';" ++ [128512] ++ str "');" ++ br);
+    (true, str "select " ++ [233] ++ str " from t; " ++ br) ].
+Definition utf_chunks : list (list N) :=
+  let b := encode_keys (final_enter utf_pcs) in
+  [firstn 25 b; firstn 2 (skipn 25 b); []; firstn 7 (skipn 27 b); firstn 9 (skipn 34 b);
+   firstn 11 (skipn 43 b); firstn 14 (skipn 54 b); skipn 68 b].
+
+Example C20_byte_oracle_demo :
+  let c := mkCase utf_chunks (Some (utf_units, utf_pcs)) key_consts (session_bytes utf_chunks) in
+  hyps_hold c = true /\ enc_ok false (final_enter utf_pcs) = true /\
+  List.map (@List.length N) utf_chunks = [25; 2; 0; 7; 9; 11; 14; 4]%nat /\
+  List.map (fun k => List.length (encode_key k)) [233; 8364; 128512; keyPasteStart] = [2; 3; 4; 6]%nat /\
+  session_bytes utf_chunks = session_keys (final_enter utf_pcs) /\
+  submitted (session_bytes utf_chunks) = List.map (fun u => normalise (fst u)) utf_units /\
+  model_agrees c = true /\ spec_accepts c = true.
+Proof. vm_compute. repeat split; reflexivity. Qed.
